@@ -29,7 +29,7 @@ RULE = (
 )
 ASSUMPTIONS = ["member option values are JSON scalars / lists; the class reports keys() on the instance's own options"]
 FLOORS = {"instances_checked": (3000, 60000), "pairs_compared": (6000, 120000), "pairs_differing_only_in_relevant_dotted_key": (600, 12000),
-          "pairs_differing_only_in_irrelevant_key": (1500, 30000), "union_checks": (3000, 60000), "repr_checks": (3000, 60000)}
+          "pairs_differing_only_in_irrelevant_key": (1500, 30000), "union_checks": (3000, 60000), "repr_checks": (3000, 60000), "pairs_same_options_entries_reordered": (1500, 30000)}
 SHARDS_QUICK = 4
 
 FLAT = ["A", "B", "C"]
@@ -45,7 +45,7 @@ def make_class(r):
     n = r.choice([1, 2, 3, 4, 5])
     for i in range(n):
         name = f"m{i}"
-        kind = r.choice(["flat", "dotted", "dotted", "default", "dataset", "const", "inherited", "dispatching"])
+        kind = r.choice(["flat", "dotted", "dotted", "default", "dataset", "const", "inherited", "dispatching", "section"])
         target_ns, target_ann = (base_ns, base_ann) if kind == "inherited" else (ns, ann)
         if kind in ("flat", "inherited"):
             key = r.choice(FLAT)
@@ -55,6 +55,11 @@ def make_class(r):
             key = r.choice(DOTTED)
             target_ns[name] = Option(key)
             members[name] = ("opt", [key])
+        elif kind == "section":
+            # a member whose value is a whole section (a mapping: equality must not depend on its entry order)
+            key = r.choice(["S", "T"])
+            target_ns[name] = Option(key, {"X": "section-default"})
+            members[name] = ("optdefault", [key])
         elif kind == "default":
             key = r.choice(FLAT + DOTTED)
             target_ns[name] = Option(key, r.choice([0, "d", None]))
@@ -220,6 +225,15 @@ def pair_case(ctx, cls, members, raw, o1, o2, kind):
         ctx.sample({"members": {k: list(v) for k, v in members.items()}, "o1": o1, "o2": o2, "equal": got}, limit=3)
 
 
+def reordered(o):
+    """The same dictionary with the entries of every mapping (top level and nested sections) in reverse order."""
+    if isinstance(o, dict):
+        return {k: reordered(o[k]) for k in reversed(list(o))}
+    if isinstance(o, list):
+        return [reordered(x) for x in o]
+    return copy.deepcopy(o)
+
+
 def run(ctx, only=None):
     n = ctx.n(500, 10000)
     for i in range(n) if only is None else [only]:
@@ -241,11 +255,15 @@ def run(ctx, only=None):
                 k = r.choice(dotted_rel)
                 o2 = U.set_path(o1, k, "changed")
                 pair_case(ctx, cls, members, raw, o1, o2, "differing_only_in_relevant_dotted_key")
-            flat_rel = [k for k in relevant if "." not in k]
+            flat_rel = [k for k in relevant if "." not in k and k not in ("S", "T")]
+            for k in [k for k in relevant if k in ("S", "T")]:
+                # (a scalar where a section is expected is the recorded C04 finding: sections are replaced by sections)
+                pair_case(ctx, cls, members, raw, o1, U.set_path(o1, k, {"X": "changed", "Z": 1}), "differing_only_in_relevant_flat_key")
             if flat_rel:
                 k = r.choice(flat_rel)
                 pair_case(ctx, cls, members, raw, o1, U.set_path(o1, k, "changed"), "differing_only_in_relevant_flat_key")
             pair_case(ctx, cls, members, raw, o1, copy.deepcopy(o1), "identical")
+            pair_case(ctx, cls, members, raw, o1, reordered(o1), "same_options_entries_reordered")
             # same present keys, a value that changes which keys are read (dispatch / templated value)
             if U.present("D", o1):
                 o2 = dict(copy.deepcopy(o1), D="none" if o1["D"] == "alt" else "alt")
